@@ -1,5 +1,5 @@
 SPECIFICATION Spec
 CONSTANTS DictSize = 4096 MinDict = 4096 Align = 16 RepMax = 288
- Bytes = {1, 2} MaxSyms = 3 MaxDist = 5 Lens = {2, 3, 273} Ctxs = {"fresh", "none", "state"} Known = TRUE
+ Bytes = {1, 2} MaxSyms = 3 MaxDist = 5 Lens = {2, 3, 273} Ctxs = {"fresh", "none", "state", "afterwrap"} Known = TRUE
 ACTION_CONSTRAINT Emit
 CHECK_DEADLOCK FALSE
